@@ -102,6 +102,8 @@ var (
 	vpAuthErr     error
 	vpNtlmRes     *auth.NtlmResponse
 	vpNtlmErr     error
+	vpAuthDB      map[string]string
+	vpAuthSlowFor string
 	vpBasicUser   string
 	vpBasicPass   string
 	vpBasicOK     bool
@@ -114,6 +116,7 @@ func vpResetWeb() {
 	vpAuthReqUser, vpAuthReqPass, vpNtlmReqMsg, vpNtlmReqSess = "", "", "", ""
 	vpAuthRes, vpAuthErr, vpNtlmRes, vpNtlmErr = nil, nil, nil, nil
 	vpBasicUser, vpBasicPass, vpBasicOK = "", "", false
+	vpAuthDB, vpAuthSlowFor = nil, ""
 	vpQueryVals = nil
 	vpFormVals = nil
 	vpMetricLabels = nil
@@ -140,6 +143,15 @@ type vpAuthClient struct{}
 func (vpAuthClient) Authenticate(ctx context.Context, in *auth.UserPass, opts ...grpc.CallOption) (*auth.AuthResponse, error) {
 	vpAuthCalls++
 	vpAuthReqUser, vpAuthReqPass = in.Username, in.Password
+	if vpAuthDB != nil {
+		// a backend with accounts: the verdict belongs to the credentials of THIS call; a slow account
+		// (pam_faildelay, a remote directory) lets the gateway serve other requests meanwhile
+		if in.Username == vpAuthSlowFor {
+			vpRunTasks()
+		}
+		pw, known := vpAuthDB[in.Username]
+		return &auth.AuthResponse{Authenticated: known && pw == in.Password}, nil
+	}
 	return vpAuthRes, vpAuthErr
 }
 func (vpAuthClient) NTLM(ctx context.Context, in *auth.NtlmRequest, opts ...grpc.CallOption) (*auth.NtlmResponse, error) {
@@ -149,7 +161,13 @@ func (vpAuthClient) NTLM(ctx context.Context, in *auth.NtlmRequest, opts ...grpc
 }
 func vpNewAuthClient(cc grpc.ClientConnInterface) auth.AuthenticateClient { return vpAuthClient{} }
 
-func vpBasicAuth(r *http.Request) (string, string, bool) { return vpBasicUser, vpBasicPass, vpBasicOK }
+func vpBasicAuth(r *http.Request) (string, string, bool) {
+	if u := r.Header["X-Vp-Basic-User"]; len(u) == 1 {
+		// credentials of this very request (harnesses with several requests in flight)
+		return u[0], r.Header.Get("X-Vp-Basic-Pass"), true
+	}
+	return vpBasicUser, vpBasicPass, vpBasicOK
+}
 func vpURLQuery(u *url.URL) url.Values                  { return vpQueryVals }
 
 // a request's parameters: the query string, and — for FormValue — a posted form, which comes first
